@@ -575,13 +575,23 @@ impl Check for C01 {
             let prologue = if idx < planes.len() as u64 && rng.chance(1, 4) { vec![] } else { prologue(rng) };
             return Scn::Plane(PlaneScn { kind, prologue, regs, only: None });
         }
-        let setup = gen::hazard_setup(rng, 40);
+        let mut setup = gen::hazard_setup(rng, 40);
+        if rng.chance(1, 5) {
+            // a main program + interrupt routine (RETI, entry sequence, DI windows) under real key presses
+            let irq = gen::IrqOpts { enable_key: true, di_windows: rng.bool(), nested_ei: rng.chance(1, 4), isr_work: rng.bool(), enable_by_store: rng.bool() };
+            let o = gen::HazardOpts { len: 6 + rng.usize(30), wild: false, run_into_io: false, with_ei: true, irq: Some(irq) };
+            setup.image.bytes = gen::hazard_program(rng, o);
+            setup.image.stack = *rng.pick(&[0u8, 32, 64]);
+            if let Some(r) = setup.regs.as_mut() {
+                r[5] = gen::valid_sp(rng, setup.image.stack);
+            }
+        }
         let max_edges = 3_000 + rng.below(5_000) as u32;
         // transparent stimuli only (DESIGN.md C01): MODE toggles, CONTINUE while running, masked key presses,
         // boundary-aligned input changes
         let mut events: Vec<(u32, Stim)> = vec![];
         let nev = if rng.chance(1, 3) { 0 } else { rng.below(6) };
-        let uses_key = setup.image.bytes.windows(4).any(|w| w == [0xFB, 0x01, 0x5F, 0xF9]);
+        let uses_key = setup.image.bytes.windows(4).any(|w| w == [0xFB, 0x01, 0x5F, 0xF9]) || setup.image.bytes.windows(3).any(|w| w == [0xF0, 0x1F, 0xF9]);
         for _ in 0..nev {
             let t = rng.below(max_edges as u64 / 4) as u32;
             let s = match rng.below(9) {
@@ -598,6 +608,10 @@ impl Check for C01 {
                 _ => Stim::BusWrite(gen::DATA_LO + rng.below(40) as u8, rng.u8()),
             };
             events.push((t, s));
+        }
+        if rng.chance(1, 3) {
+            // CONTINUE some time after the program's STOP: the machine runs on into whatever follows
+            events.push((300 + rng.below(2_000) as u32, Stim::Continue));
         }
         events.sort_by_key(|e| e.0);
         // every Mode(true) is followed by a Mode(false) a little later so that most of the run is edge-accurate
